@@ -119,7 +119,7 @@ def cases(seed, tier, shard, nshards):
     for i in common.sharded(budget(tier)['n'], shard, nshards):
         r = common.rng_for(seed, PROP, i)
         d = docs.gen(r, labels=True, refs=True, eqnarray=True, verbatim=False, boxes=r.random() < 0.3, footnotes=r.random() < 0.5, fonts=r.random() < 0.5,
-                     tables=r.random() < 0.3, depth=r.choice([2, 3]), maxsec=r.choice([4, 8]), blocks=(1, 4), term_labels=r.choice([0, 0.5]), wide_labels=r.choice([0, 0, 0.4]))
+                     tables=r.random() < 0.3, depth=r.choice([2, 3]), maxsec=r.choice([4, 8]), blocks=(1, 4), term_labels=r.choice([0, 0.5]), wide_labels=r.choice([0, 0, 0.4]), late_labels=r.choice([0, 0.5]))
         # sometimes two floats that are equal in everything but their label, as the last objects of the document
         twins = []
         suffix = ''
